@@ -38,7 +38,7 @@ struct Source {
 
 const SOURCES: &[Source] = &[
     Source { name: "host-anchors", rules: &["||ads.net^", "||ads.net/ad$script", "@@||ok.net^$image"], debug: false, optimize: true, tags: &[] },
-    Source { name: "regex+cosmetic", rules: &["/ad[0-9]+/", "foo*bar^", "x.com##.ad", "x.com##+js(s1, \"a b\", c)", "##.generic"], debug: false, optimize: true, tags: &[] },
+    Source { name: "regex+cosmetic", rules: &["/ad[0-9]+/", "foo*bar^", "x.com##.ad", "x.com##+js(s1, \"a b\", c)", "##.generic", "x.com##.r:style(top:0)", "x.com#@#.u:style(top:0)"], debug: false, optimize: true, tags: &[] },
     Source { name: "tagged+debug", rules: &["adv$tag=a", "@@advice$tag=b", "||c.com^$csp=d1", "||r.com^$redirect=a"], debug: true, optimize: false, tags: &["a"] },
     Source { name: "domains", rules: &["ads$domain=x.com|~y.com", "||t.co.uk^$3p,important", "|https://a.b/|"], debug: false, optimize: false, tags: &[] },
     Source { name: "cosmetic-procedural", rules: &["x.com##.p:style(color:red)", "x.com#@#.q", "y.com##.r:has-text(ad)", "z.*##.e", "~w.com##.n"], debug: false, optimize: true, tags: &[] },
@@ -706,6 +706,12 @@ fn main() {
     if args.get(1).map(|s| s.as_str()) == Some("child") {
         let b = if args[2] == "hdr" { usize::MAX } else { args[2].parse().unwrap() };
         child(b, args[3].parse().unwrap(), args[4].parse().unwrap());
+        return;
+    }
+    if args.get(1).map(|s| s.as_str()) == Some("dump") {
+        // c10 dump <buffer>: the valid buffer, printable bytes as text
+        let b = valid_buffer(args[2].parse().unwrap());
+        println!("{} bytes: {}", b.len(), b.iter().map(|c| if c.is_ascii_graphic() || *c == b' ' { (*c as char).to_string() } else { format!("\\x{:02x}", c) }).collect::<String>());
         return;
     }
     if args.get(1).map(|s| s.as_str()) == Some("describe") {
